@@ -31,9 +31,9 @@
 //!
 //! Signatures: `order-differs`, `message-corrupted`, `message-delivered-twice`, `unknown-message-delivered`,
 //! `send-failed [..]`, `library-task-panicked [..]`, `busy-loop`, `real-time-hang`, and for stalls
-//! `send-hangs [<stage>] <buffers> <schedule>` / `message-lost [<stage>] <buffers> <schedule>` where <stage> says
+//! `stall <buffers> <schedule>: send-hangs [<stage>]` / `stall <buffers> <schedule>: message-lost [<stage>]` where <stage> says
 //! how far the first stuck message got as seen on the wire and by the two applications, <buffers> is
-//! small-buffers (1, 2) / roomy-buffers (256) and <schedule> is default-schedule / deviating-schedule /
+//! buffers-of-1 / buffers-of-2 / roomy-buffers (256) and <schedule> is default-schedule / deviating-schedule /
 //! deviating-schedule+preempt.
 use fe2o3_amqp::acceptor::{
     ConnectionAcceptor, LinkAcceptor, LinkEndpoint, SessionAcceptor, SupportedReceiverSettleModes, SupportedSenderSettleModes,
@@ -729,13 +729,15 @@ fn judge(cfg: &Cfg, p: &Prepared, o: &Obs, sched: &str) -> Vec<(String, String)>
     // stalls (hangs, messages that never arrive) are qualified by the two things that tell a bounded-channel
     // stall between engine tasks from a flow-control bug: the size class of the mpsc buffers and the kinds of
     // schedule deviations the execution needed
-    let bufclass = if cfg.buf <= 2 { "small-buffers" } else { "roomy-buffers" };
+    let bufclass = if cfg.buf <= 1 { "buffers-of-1" } else if cfg.buf <= 2 { "buffers-of-2" } else { "roomy-buffers" };
     if o.sender_hangs {
         // the message the sender task is stuck on
         let i = o.step.rsplit('#').next().and_then(|x| x.parse::<usize>().ok()).unwrap_or_else(|| o.sends.iter().position(|s| s.is_none()).unwrap_or(0));
         let st = stage(i);
         f.push((
-            format!("send-hangs [{st}]{} {bufclass} {sched}", split_tag(st)),
+            // (buffer class and schedule class first: they identify the one known root cause, the mutual wait of the
+            // connection and session engines on full channels of capacity 1, whatever stage it strikes at)
+            format!("stall {bufclass} {sched}: send-hangs [{st}]{}", split_tag(st)),
             format!("the sender task is still at '{}' (message #{i}) after {} s of virtual time with the connection up; {stall}: {}", o.step, HORIZON.as_secs(), summary()),
         ));
     }
@@ -767,7 +769,7 @@ fn judge(cfg: &Cfg, p: &Prepared, o: &Obs, sched: &str) -> Vec<(String, String)>
             None if got.len() < sent.len() => {
                 // got is a proper prefix of sent: message #got.len() is the first one missing
                 let st = stage(got.len());
-                format!("message-lost [{st}]{} {bufclass} {sched}", split_tag(st))
+                format!("stall {bufclass} {sched}: message-lost [{st}]{}", split_tag(st))
             }
             None => "order-differs".to_string(),
         };
@@ -784,7 +786,7 @@ fn judge(cfg: &Cfg, p: &Prepared, o: &Obs, sched: &str) -> Vec<(String, String)>
             }
         }
         // a message that is missing only because its send hangs / failed is reported once, under the send's class
-        if !(sig.starts_with("message-lost") && !f.is_empty()) {
+        if !(sig.contains("message-lost") && !f.is_empty()) {
             f.push((sig, detail));
         }
     }
